@@ -560,7 +560,8 @@ def fam_known(ctx, k):
         basis = skfem.CellBasis(mesh, skfem.ElementComposite(EL.by_name(rt[0]).make(), EL.by_name(rt[1]).make()))
 
         def darcy(u, p, v, q, w):
-            return JHm.dot(u, v) - JHm.div(v) * p + JHm.div(u) * q
+            # field first: `ndarray * JaxDiscreteField` is the NumPy-left pitfall described in c20.py
+            return JHm.dot(u, v) - p * JHm.div(v) + q * JHm.div(u)
 
         def darcy_np(u, p, v, q, w):
             return (np.asarray(u) * np.asarray(v)).sum(0) - v.div * np.asarray(p) + u.div * np.asarray(q)
